@@ -9,7 +9,8 @@ Traces == ndJsonDeserialize(IOEnv.TRACE_FILE)
 VARIABLE tid
 Judge(r) ==
   LET c == CertCfg(r.q) IN
-  IF r.refused THEN (IF r.q.fn = "self_sign" /\ ~HasSameDay(Now(r.q), 20) THEN 20 ELSE 2)
+  IF ~ArgsDenote(r.q) THEN 30                  \* the driver's zone arithmetic (zoneinfo) and CertTimeZone disagree: machinery, not a verdict
+  ELSE IF r.refused THEN (IF r.q.fn = "self_sign" /\ ~HasSameDay(Now(r.q), 20) THEN 20 ELSE 2)
   ELSE IF r.content.is = "other" THEN 7        \* a Content is there and it is not what was given: the specific clause first
   ELSE IF r.lay # Flat(Final(c)) THEN 3
   ELSE IF r.nb # NotBefore(r.q) THEN 4
